@@ -18,7 +18,10 @@ package gomatrixserverlib
 import (
 	"encoding/json"
 	"fmt"
+	"strconv"
 	"strings"
+	"unicode/utf16"
+	"unicode/utf8"
 
 	"github.com/matrix-org/gomatrixserverlib/spec"
 	"github.com/tidwall/gjson"
@@ -89,6 +92,43 @@ func checkRoomIDIsValid(roomID string) error {
 	}
 	if _, err := spec.NewRoomID(roomID); err != nil {
 		return fmt.Errorf("gomatrixserverlib: invalid room ID %q: %w", roomID, err)
+	}
+	return nil
+}
+
+// checkNoUnpairedSurrogates returns an error if a string of the event, key or value, has a
+// \uXXXX escape of a UTF-16 surrogate that is not part of a pair. Such a text is not
+// well-formed Unicode and the decoders in use disagree about it: encoding/json and gjson
+// read the escape as U+FFFD while canonicalisation drops it, so the key "unsigned\udead"
+// passes the key checks below as a key of its own and is the key "unsigned" in the
+// canonical form that is hashed and kept, and "hashes\udead" becomes a second "hashes".
+func checkNoUnpairedSurrogates(eventJSON []byte) error {
+	hex4 := func(i int) (rune, bool) {
+		if i+4 > len(eventJSON) {
+			return 0, false
+		}
+		v, err := strconv.ParseUint(string(eventJSON[i:i+4]), 16, 16)
+		return rune(v), err == nil
+	}
+	for i := 0; i < len(eventJSON); i++ {
+		if eventJSON[i] != '\\' || i+1 >= len(eventJSON) {
+			continue
+		}
+		i++ // the escaped character
+		if eventJSON[i] != 'u' {
+			continue
+		}
+		c, ok := hex4(i + 1)
+		if !ok || !utf16.IsSurrogate(c) {
+			continue
+		}
+		// A high surrogate must be followed by the escape of a low surrogate.
+		if c2, ok := hex4(i + 7); ok && i+6 < len(eventJSON) && eventJSON[i+5] == '\\' && eventJSON[i+6] == 'u' &&
+			utf16.DecodeRune(c, c2) != utf8.RuneError {
+			i += 10
+			continue
+		}
+		return fmt.Errorf("gomatrixserverlib: unpaired surrogate escape \\u%s in event", eventJSON[i+1:i+5])
 	}
 	return nil
 }
